@@ -288,6 +288,22 @@ func runRender(c J) J {
 	obs["text"] = rs.src
 	res := doRender(rs, jstr(c, "entry"))
 	res.put(obs)
+	// a second program to be rendered in the same setting (C13: the hyphen-free twin)
+	if _, ok := c["prog0"]; ok {
+		c0 := cloneCase(c)
+		c0["prog"] = c["prog0"]
+		rs0, err := prepareRender(c0)
+		if err != nil {
+			obs["outcome"] = "skip"
+			obs["msg"] = "prog0: " + err.Error()
+			return obs
+		}
+		defer rs0.cleanup()
+		res0 := doRender(rs0, jstr(c, "entry"))
+		obs["outcome0"] = res0.Outcome
+		obs["out0"] = bytesJSON(string(res0.Out))
+		obs["text0"] = rs0.src
+	}
 	return obs
 }
 
